@@ -206,3 +206,58 @@ Proof.
         rewrite grid_swap_in in Hl by auto. cbn [lift catch] in Hl. apply Leaf_Ret in Hl. discriminate.
 Qed.
 End Loop.
+
+(* ---- exact unfolding of one turn of the obstacle loop (both directions) ---- *)
+Lemma mo_loop_step g0 p t g x : wf_grid g -> in_grid g p = true ->
+  Leaf (move_obstacles_loop g0 (p :: t) g) x <->
+   (free_nbrs g p = [] /\ Leaf (move_obstacles_loop g0 t g) x) \/
+   (exists q, In q (free_nbrs g p) /\ Leaf (move_obstacles_loop g0 t (swapped g p q)) x).
+Proof.
+  intros Hw Hpin. cbn [move_obstacles_loop]. rewrite floor_neighbours_ok by auto. cbn [lift bind]. fold (free_nbrs g p).
+  assert (IN : forall q, In q (free_nbrs g p) -> in_grid g q = true).
+  { intros q Hq. unfold free_nbrs in Hq. apply filter_In in Hq. destruct Hq as [_ Hq]. apply andb_true_iff in Hq. tauto. }
+  destruct (free_nbrs g p) as [|n0 ns] eqn:En.
+  - cbn [length Z.of_nat]. unfold rchoice. cbn [Z.leb Z.compare bind catch]. cbn [bind]. split.
+    + intros H. left. split; auto.
+    + intros [[_ H]|[q [[] _]]]. auto.
+  - set (nps := n0 :: ns) in *.
+    assert (Hlen : 0 < Z.of_nat (length nps)) by (unfold nps; cbn [length]; lia).
+    rewrite Leaf_bind. split.
+    + intros [[g' [H1 H2]]|[e [H1 ->]]].
+      * unfold rchoice in H1. destruct (Z.of_nat (length nps) <=? 0) eqn:El; [apply Z.leb_le in El; lia|].
+        cbn [bind catch] in H1. inversion H1 as [| |gg r k ans x' Hv Hl]; subst.
+        unfold valid_ans in Hv. apply andb_true_iff in Hv. destruct Hv as [Hl1 Hr].
+        destruct ans as [|i [|? ?]]; cbn [length] in Hl1; try (apply Z.eqb_eq in Hl1; lia).
+        apply inrange_one in Hr. cbn [hd0] in Hl.
+        assert (Hq : In (nthZ nps i p) nps) by (apply nthZ_In; auto).
+        rewrite grid_swap_in in Hl by auto. cbn [lift catch] in Hl. apply Leaf_Ret in Hl. injection Hl as Hl; subst g'.
+        right. exists (nthZ nps i p). split; auto.
+      * exfalso. unfold rchoice in H1. destruct (Z.of_nat (length nps) <=? 0) eqn:El; [apply Z.leb_le in El; lia|].
+        cbn [bind catch] in H1. inversion H1 as [| |gg r k ans x' Hv Hl]; subst.
+        unfold valid_ans in Hv. apply andb_true_iff in Hv. destruct Hv as [Hl1 Hr].
+        destruct ans as [|i [|? ?]]; cbn [length] in Hl1; try (apply Z.eqb_eq in Hl1; lia).
+        apply inrange_one in Hr. cbn [hd0] in Hl.
+        assert (Hq : In (nthZ nps i p) nps) by (apply nthZ_In; auto).
+        rewrite grid_swap_in in Hl by auto. cbn [lift catch] in Hl. apply Leaf_Ret in Hl. discriminate.
+    + intros [[H _]|[q [Hq HL]]]; [discriminate|]. left. exists (swapped g p q). split; auto.
+      destruct (In_nth nps q p Hq) as (k & Hk & Ek).
+      unfold rchoice. destruct (Z.of_nat (length nps) <=? 0) eqn:El; [apply Z.leb_le in El; lia|].
+      cbn [bind catch]. apply LDraw with (ans := [Z.of_nat k]).
+      * unfold valid_ans. rewrite (proj2 (inrange_one 0 (Z.of_nat (length nps)) (Z.of_nat k))) by lia. reflexivity.
+      * cbn [hd0]. unfold nthZ. rewrite Nat2Z.id, Ek. rewrite grid_swap_in by auto. cbn [lift catch]. constructor.
+Qed.
+
+(* the loop always has an outcome *)
+Lemma mo_loop_has_leaf g0 ps : forall g, wf_grid g -> (forall p, In p ps -> in_grid g p = true) ->
+  exists g', Leaf (move_obstacles_loop g0 ps g) (Ok g').
+Proof.
+  induction ps as [|p t IH]; intros g Hw Hin.
+  - exists g. constructor.
+  - assert (Hp : in_grid g p = true) by (apply Hin; left; auto).
+    destruct (free_nbrs g p) as [|q qs] eqn:En.
+    + destruct (IH g Hw (fun r Hr => Hin r (or_intror Hr))) as [g' Hg']. exists g'. apply mo_loop_step; auto.
+    + destruct (IH (swapped g p q)) as [g' Hg'].
+      * apply wf_swapped; auto.
+      * intros r Hr. rewrite in_grid_swapped. apply Hin; right; auto.
+      * exists g'. apply mo_loop_step; auto. right. exists q. split; auto. rewrite En. left; auto.
+Qed.
